@@ -848,6 +848,7 @@ def run(tier: str, seed: int, replay=None) -> int:
         "container assignment only onto an empty field (assignment onto a non-empty field is retraction, which the graph does not do)",
         "every descriptor with an inverse finds a field of the inverse descriptor class on the target or its role taker (otherwise ValueError by design)",
         "instance classes own their descriptors directly (no instances of subclasses of a descriptor-owning class)",
+        "every object of a population stays alive for the whole history (the model has no garbage collection): the guard `if nxt_relation.source.instance is None: continue` of infer_transitive_relations_incoming_to_target (52517d3, C14-b; pinned) is never taken in the modelled histories, where it is the identity",
         "field agreement: list and single-valued fields object by object; set fields up to == (a Python set cannot hold two equal objects: the graph still records the relation to each of them)",
         "constructor arguments: non-empty containers only, and only where every same-object field written by inference is declared earlier (K_ctor_halfbuilt, C15-c, replayed from its witness)",
     ]
